@@ -15,7 +15,7 @@ pub fn generate(suite: &str, rng: &mut Rng, thorough: bool) -> (&'static str, Ve
         "control_cut" => ("E2C", control::generate(rng, thorough, true)),
         "pair" => ("E2C", pair::generate(rng, thorough)),
         "emit" | "signals" | "wdgram" | "client" => ("E2C", misc::generate(rng, thorough, suite)),
-        "streams" | "foreign" | "unknown_uni" | "stall" | "pace" => ("E2C", streams::generate(rng, thorough, suite)),
+        "streams" | "foreign" | "unknown_uni" | "stall" | "pace" | "requests" => ("E2C", streams::generate(rng, thorough, suite)),
         _ => panic!("unknown suite {}", suite),
     }
 }
